@@ -60,7 +60,22 @@ class ChainBuilder:
 
     def fault(self, f, level):
         r = self.r
-        k = r.randrange(9)
+        k = r.randrange(12)
+        if k == 9:
+            # the built-in argument type check, on one line of a group: the entry names that argument
+            cmd, good, bad = r.choice([("DELAY", "5", '"a"'), ("DELAY", "1+1", "1.5"), ("WHITESPACE", "1", "TRUE"), ("DEFAULT_DELAY", "3", '"x"'), ("DELAY", "2", "0.5+1")])
+            n = self.emit(f, level, cmd)
+            self.emit(f, level + 1, good)
+            m = self.emit(f, level + 1, bad)
+            self.emit(f, level + 1, good)
+            return (f, n, m)
+        if k == 10:
+            n = self.emit(f, level, r.choice(['DELAY "a"', "DELAY 1.5", "WHITESPACE TRUE", 'DEFAULT_DELAY "q"']))
+            return (f, n, n)
+        if k == 11:
+            n = self.emit(f, level, r.choice(["DELAY 5", "ALT a"]))
+            m = self.emit(f, level + 1, r.choice(['"a"', "-1"]) if self.files[f][n - 1].strip().startswith("DELAY") else "bad!")
+            return (f, n, m)
         if k == 0:
             n = self.emit(f, level, "DELAY -1")
             return (f, n, n)
@@ -189,6 +204,17 @@ class C10(Prop):
             out.append(comp(t, {}, expect_trace=exp))
         for t in ["STRING a\n  STRING b\n     STRING c", "  STRING a", "STRING a\n\tSTRING b\n    STRING c", "IF TRUE\n    STRING a\n  STRING b"]:
             out.append({"kind": "tab", "text": t})
+        # stack-overflow errors carry the whole chain too (compared with the model's trace)
+        for L in (5, 6, 9, 20):
+            out.append(comp("PRINT p\nFUNC f\n    RUN f\nRUN f", {"stack_limit": L}))
+            out.append(comp("FUNC f n\n    IF n>0\n        RUN f n-1\nRUN f 50", {"stack_limit": L}))
+            out.append(comp("\n".join("    " * j + "IF TRUE" for j in range(L + 1)) + "\n" + "    " * (L + 1) + "STRING deep", {"stack_limit": L}))
+            files = {("main.txt",): "START f1"}
+            for j in range(1, L + 2):
+                files[("f%d.txt" % j,)] = "STRING in%d\nSTART f%d" % (j, j + 1)
+            files[("f%d.txt" % (L + 2),)] = "STRING end"
+            out.append(fcase(files, ("main.txt",), {"stack_limit": L}))
+        out.append(comp("$STRING " + "(" * 101 + "1" + ")" * 101, {}))
         return out
 
     def oracle(self, c, i):
@@ -307,6 +333,13 @@ class C11(Prop):
             out.append(comp(t, {"include_comments": True}, expect_out=exp))
         for t in ["WHITESPACE 100", "WHITESPACE -1", "WHITESPACE 0-1"]:
             out.append(comp(t, {}, expect_fail=True))
+        # every form is compiled afresh wherever it stands: inside bodies run several times (loops, functions
+        # run twice), and `$` on one line says nothing about the next line with the same word
+        for t, exp in [("REPEAT 3\n    STRING a\n        b", ["STRING a", "STRING b"] * 3), ("FUNC f\n    STRING a\n        b\n        c\nRUN f\nRUN f", ["STRING a", "STRING b", "STRING c"] * 2),
+                       ("WHILE i,i<2\n    REPEAT 2\n        FOO x\n            y", ["FOO x", "FOO y"] * 4), ("REPEAT 2\n    $STRING 1\n        1+1", ["STRING 1", "STRING 2"] * 2),
+                       ("$MYKEY 1+1\nMYKEY 1+1\nMYKEY hello world", ["MYKEY 2", "MYKEY 1+1", "MYKEY hello world"]), ("IF TRUE\n    $FOO 2*3\n    FOO 2*3\n    $FOO 1\n    FOO a b", ["FOO 6", "FOO 2*3", "FOO 1", "FOO a b"]),
+                       ("$STRING 1+1\nSTRING 1+1\n$STRING 2+2", ["STRING 2", "STRING 1+1", "STRING 4"]), ("REPEAT 2\n    $BAR 1+1\n    BAR 1+1", ["BAR 2", "BAR 1+1"] * 2)]:
+            out.append(comp(t, {"include_comments": True}, expect_out=exp))
         out.append(comp("DEFAULT_DELAY\n  5\n  $DEFAULT_DELAY+1", {}, group="dd", spelling=0))
         out.append(comp("DEFAULT_DELAY 5\nDEFAULT_DELAY $DEFAULT_DELAY+1", {}, group="dd", spelling=2))
         return out
@@ -553,10 +586,17 @@ class C13(Prop):
         ok = run(entry, [entry])
         return ("OK" if ok else "CIRC", out)
 
-    def mkcase(self, edges, entry, nfiles, kind, infunc, climb):
+    def mkcase(self, edges, entry, nfiles, kind, infunc, climb, pre=0):
         files = {}
         for f in range(nfiles):
             lines = ["STRING f%d" % f]
+            # the file finishes a block / a call of its own before importing: still live afterwards
+            if pre == 1:
+                lines += ["IF TRUE", "    PASS"]
+            elif pre == 2:
+                lines += ["REPEAT 2", "    PASS", "WHILE w,w<1", "    PASS"]
+            elif pre == 3:
+                lines += ["FUNC own%d" % f, "    PASS", "RUN own%d" % f]
             for (a, b) in edges:
                 if a == f:
                     name = ("f%d" % b) if not climb else (".d.f%d" % b)
@@ -584,6 +624,8 @@ class C13(Prop):
                 entry = r.randrange(nfiles)
                 kind = r.choice(["START", "START", "STARTCODE", "STARTENV"])
                 out.append(self.mkcase(edges, entry, nfiles, kind, r.random() < 0.3, r.random() < 0.25))
+                if r.random() < 0.4:
+                    out.append(self.mkcase(edges, entry, nfiles, kind, r.random() < 0.3, False, pre=r.choice([1, 2, 3])))
         # files that never run a line, or end a WHILE on a false condition, imported twice / along two paths
         for leaf in ("", "   \n\n", "VAR k 0\nWHILE k<0\n    PASS\nIF TRUE\n    STRING leaf", "WHILE FALSE\n    PASS\nREPEAT 1\n    STRING leaf"):
             exp_leaf = ["STRING leaf"] if "leaf" in leaf else []
@@ -705,9 +747,23 @@ class C14(Prop):
                     exp = "OK" if k < L else "SO"
                     if kind == "start":
                         files[("main.txt",)] = t
-                        out.append(fcase(files, ("main.txt",), {"stack_limit": L}, expect=exp, timeout=60.0))
+                        out.append(fcase(files, ("main.txt",), {"stack_limit": L}, expect=exp, timeout=60.0, construct=kind, depth=k))
                     else:
-                        out.append(comp(t, {"stack_limit": L}, expect=exp, timeout=60.0))
+                        out.append(comp(t, {"stack_limit": L}, expect=exp, timeout=60.0, construct=kind, depth=k))
+        # a chain arm that is not taken consumes no level: at the last permitted depth an untaken IF / ELIF and
+        # an ELSE after a taken IF are fine; guarded recursion bottoms out exactly at the limit
+        for L in ([5, 6, 20] if tier != "thorough" else [5, 6, 7, 20, 57, 100, 200]):
+            for kind in ("if", "repeat", "mix"):
+                base = self.nest(kind, L - 1, {}).split("\n")[:-1]
+                ind = "  " * (L - 1)
+                for tail in (["IF FALSE", "  STRING no", "STRING bottom"], ["IF FALSE", "  STRING no", "ELIF 1>2", "  STRING no", "STRING bottom"],
+                             ["IF FALSE", "  STRING no", "ELSE", "  STRING yes"], ["WHILE w,w<0", "  STRING no", "STRING bottom"]):
+                    # (a WHILE evaluates its condition inside the iteration's own block, so a WHILE that never runs still
+                    # needs a level: the model decides that one)
+                    t = "\n".join(base + [ind + x for x in tail])
+                    out.append(comp(t, {"stack_limit": L}, expect=("OK" if tail[-1] == "STRING bottom" and not tail[0].startswith("WHILE") else None), timeout=60.0, construct="untaken-" + kind, depth=L - 1))
+            out.append(comp("FUNC f n\n  IF n>0\n    RUN f n-1\n  STRING x\nRUN f %d" % ((L - 2) // 2), {"stack_limit": L}, expect=None, timeout=60.0, construct="guarded", depth=L))
+            out.append(comp("FUNC f n\n  IF n>0\n    RUN f n-1\n  STRING x\nRUN f %d" % ((L - 1) // 2), {"stack_limit": L}, expect=None, timeout=60.0, construct="guarded", depth=L))
         for L in ([100, 199, 200] if tier != "thorough" else [100, 120, 140, 160, 180, 190, 199, 200]):
             for kind in ("if", "run", "start"):
                 for k in (L - 1, L):
@@ -716,9 +772,9 @@ class C14(Prop):
                     exp = "OK" if k < L else "SO"
                     if kind == "start":
                         files[("main.txt",)] = t
-                        out.append(fcase(files, ("main.txt",), {"stack_limit": L}, expect=exp, timeout=90.0, deep=True))
+                        out.append(fcase(files, ("main.txt",), {"stack_limit": L}, expect=exp, timeout=90.0, deep=True, construct=kind, depth=k))
                     else:
-                        out.append(comp(t, {"stack_limit": L}, expect=exp, timeout=90.0, deep=True))
+                        out.append(comp(t, {"stack_limit": L}, expect=exp, timeout=90.0, deep=True, construct=kind, depth=k))
         # unbounded recursion / import chain end in a compile error
         for L in (5, 20):
             out.append(comp("FUNC f\n  RUN f\nRUN f", {"stack_limit": L}, expect="SO"))
@@ -758,7 +814,12 @@ class C14(Prop):
         if i["status"] == "TIMEOUT":
             return ("hang", "no result within the time bound")
         if i["status"] == "CRASH":
-            tag = "host_recursion" if i["err"] == "RecursionError" else "crash:" + i["err"]
+            # the recorded finding is: START chains of about 190 levels or more; host-stack exhaustion by any
+            # other construct or at a smaller depth is a different violation
+            if i["err"] == "RecursionError":
+                tag = "host_recursion" if (c.get("construct") == "start" and c.get("depth", 0) >= 185) else "host_recursion:%s@%s" % (c.get("construct"), c.get("depth"))
+            else:
+                tag = "crash:" + i["err"]
             return (tag, "%s instead of a compile error (limit %s)" % (i["err"], c["opts"].get("stack_limit", 20)))
         if exp == "OK":
             if i["status"] != "OK":
@@ -778,7 +839,7 @@ class C14(Prop):
             files = {}
             t = self.nest(w["construct"], w["depth"], files)
             files[("main.txt",)] = t
-            c = fcase(files, ("main.txt",), {"stack_limit": w["limit"]}, expect="OK", timeout=90.0)
+            c = fcase(files, ("main.txt",), {"stack_limit": w["limit"]}, expect="OK", timeout=90.0, construct=w["construct"], depth=w["depth"])
             c["root"] = common.SCRATCH_BASE + ["kf_c14_%d" % os.getpid()]
             i = common.run_impl_case(c, timeout=90.0)
             o = self.oracle(c, i)
@@ -786,8 +847,8 @@ class C14(Prop):
         return Prop.witness_fails(self, w, k)
 
     def ignore_disagreement(self, c, m, i):
-        # host-stack exhaustion is outside the model (known finding host_recursion)
-        return i["status"] == "CRASH" and i.get("err") == "RecursionError"
+        # host-stack exhaustion is outside the model; only the recorded region (known finding host_recursion) is excused
+        return i["status"] == "CRASH" and i.get("err") == "RecursionError" and c.get("construct") == "start" and c.get("depth", 0) >= 185
 
 
 # ====================================================================================== C15
@@ -804,7 +865,8 @@ class C15(Prop):
         for k in range(n // 6):
             r = rsub(rng)
             pg = gen.ProgGen(r, valid=1.0, weights={"rem": 4, "unknown": 2, "simple": 6, "ignore": 0, "quoted": 0.2, "group": 1})
-            text = "\n".join(gen.render(pg.program(), "    ", r, blank=0.05))
+            # the string twin of a file is what a text-mode read of that file returns (a CR is a line end there)
+            text = common.as_read("\n".join(gen.render(pg.program(), "    ", r, blank=0.05)))
             base = dict(include_comments=False, flipper_commands=True, supress_command_not_exist=False)
             grp = "o%d" % k
             for role, o in (("base", {}), ("comments", {"include_comments": True}), ("noflip", {"flipper_commands": False}), ("suppress", {"supress_command_not_exist": True})):
@@ -1082,7 +1144,7 @@ class C17(Prop):
                 cases.append(comp(t, {"include_comments": r.random() < 0.5}))
             else:
                 pg = gen.ProgGen(r, valid=r.choice([1.0, 0.8]))
-                cases.append(comp("\n".join(gen.render(pg.program(), "    ", r)), {"include_comments": r.random() < 0.3, "flipper_commands": r.random() < 0.8}))
+                cases.append(comp("\n".join(gen.render(pg.program(), r.choice(gen.UNITS), r)), {"include_comments": r.random() < 0.3, "flipper_commands": r.random() < 0.8}))
         return cases
 
     def extra_checks(self, rng, tier, escalate):
@@ -1173,7 +1235,14 @@ class C17(Prop):
                 opts = ds.CompileOptions()
                 before = opts.to_dict()
                 probe = "REM note\nFOO bar\nALTCHAR 65\nIF TRUE\n  IF TRUE\n    IF TRUE\n      IF TRUE\n        STRING deep"
-                base = common.compiled_rec(ds.Compiler(ds.CompileOptions()).compile(probe))
+                try:
+                    base = common.compiled_rec(ds.Compiler(ds.CompileOptions()).compile(probe))
+                except Exception as e:
+                    # the probe is a valid program (it compiles in a fresh process): failing here, after the
+                    # compilations above, is itself a dependence on history
+                    viol.append(({"kind": "history", "probe": probe}, "history_dependence",
+                                 "a valid program fails after earlier compilations in the process: %s" % common.error_rec(e).get("err")))
+                    break
                 ev += 1
                 try:
                     ds.Compiler(opts).compile_file(os.path.join(root, "main.txt"))
@@ -1250,11 +1319,15 @@ class C19(Prop):
 
     def sources(self, r, n):
         out = ["PRINT p\nSTRING a\nFUNC f\n    RUN f\nRUN f", "IF TRUE\n  IF TRUE\n    IF TRUE\n      IF TRUE\n        IF TRUE\n          IF TRUE\n            STRING deep", "STRING ok", "STRING a\nDELAY -1", "PRINT hi\nSTRING a", "PRINT hi\nDELAY -1", "FOO x", "STRING a\n  b\n      c", "REM c\nSTRING x", "",
-               "PRINT [/red] x\nSTRING a", "PRINT a\nSTRING [bold]\nDELAY -1", "STRING \\[x]\n[/red] 5", "PRINT [link\nSTRING a"]
+               "PRINT [/red] x\nSTRING a", "PRINT a\nSTRING [bold]\nDELAY -1", "STRING \\[x]\n[/red] 5", "PRINT [link\nSTRING a",
+               # markup-like text in every place the error report quotes: the command line, the argument line of a group, prints
+               "PRINT p\nSTRING out\n$STRING\n    1+1\n    [/quote] +", "ALT\n    a\n    [/x]bad", "IF TRUE\n    DELAY\n        5\n        [/b] \"x\"", "PRINT [/i]\n$STRING\n    [bold]1+"]
         for _ in range(n):
             pg = gen.ProgGen(r, valid=r.choice([1.0, 0.8]), weights={"prt": 3})
             out.append("\n".join(gen.render(pg.program(), "    ", r)))
-        return out
+        # the sources are written to files and also compiled from the string: the string twin of a file is what
+        # a text-mode read returns
+        return [common.as_read(x) for x in out]
 
     def run_cli(self, job, home):
         env = dict(os.environ, HOME=home, PYTHONHASHSEED="0", COLUMNS="200", NO_COLOR="1")
